@@ -33,6 +33,7 @@ pub fn c12_world_cfg() -> WorldCfg {
 		p_copy_permuted: 40,
 		max_members: 4,
 		allow_dups: false,
+		p_allow_dup: 0,
 		kinds: vec![],
 		vec_only: false,
 	}
